@@ -4,6 +4,7 @@ import (
 	"encoding/json"
 	"fmt"
 	"math"
+	"time"
 
 	"verif/mc/core"
 	"verif/mc/dyn"
@@ -165,15 +166,30 @@ func init() {
 		Run: func(c *core.Ctx) {
 			// "result k depends only on source sample k and the two formats": not on its neighbours, its
 			// position in a long buffer, the instantiation used before, or the order of use in the process
+			// (these passes run after the small-scope enumeration below: when the time budget is short it
+			// is the supplementary passes that are cut, not the exhaustive core)
 			all := func(s, d int) bool { return true }
-			digests := ctxRun(c, "C05", nil, true, all)
+			t0 := time.Now()
+			phases := map[string]float64{}
+			// first use of every instantiation: sequentially, in a fixed order, before anything else converts
+			digests := ctxDigests(all)
 			c.Set("ctx_digests", digests)
+			contextPasses := func() {
+				t1 := time.Now()
+				defer func() { phases["context_passes_s"] = time.Since(t1).Seconds(); c.Set("phase_seconds", phases) }()
+				ctxPasses(c, "C05", nil, true, all)
+				if core.Reversed() {
+					return
+				}
+				if res := c.ReverseOrderPass("mc-shim"); res != nil {
+					ctxCompareDigests(c, digests, res.Digests)
+				}
+			}
 			if core.Reversed() {
-				return // the reverse-order process only contributes its digests and context passes
+				contextPasses() // the reverse-order process only contributes its digests and context passes
+				return
 			}
-			if res := c.ReverseOrderPass("mc-shim"); res != nil {
-				ctxCompareDigests(c, digests, res.Digests)
-			}
+			defer contextPasses()
 			// floating-to-floating conversion preserves every value: lattices of all sign/exponent/top-
 			// mantissa patterns (NaN payloads aside), exact when not narrowing, float32(x) when narrowing
 			type ff struct {
@@ -302,6 +318,7 @@ func init() {
 				}
 				c.Eval(n, nt)
 			})
+			phases["small_scope_and_large_shapes_s"] = time.Since(t0).Seconds()
 			c.Sample(c05Case{S: "float64", D: "int16", C: 2, SP: 3, SX: 1, SL: 1, SR: 1, DP: 2, DX: 0, DL: 2, Rot: 5})
 			c.Set("rule", fmt.Sprintf("all 169 instantiations x C in 1..%d x source window x destination window (each: root of P<=%d frames, every start/length, partly filled last frames) with a per-format value alphabet (type bounds, +-1, 0, mid-scale; float sources also +-0, +-0.5, +-1, +-1.5, +-2*MaxFloat32, +-Inf, tiny, large; NaN for float->float) rotated through the positions; oracle: result k equals what the same function gives for source sample k alone in a 1x1 buffer, everything outside the common prefix still holds sentinels, source and all shapes unchanged, return = min per-channel length; float->float bit-identical / nearest float32; non-trivial = both windows non-empty; plus a sparse set of large shapes (roots of 9, 33, 130, 1025 frames, 3-4 windows per side) for all 169 instantiations; plus the context passes for all 169 instantiations (every result must equal the result of converting that value alone: all ordered pairs of special values at every lane offset in buffers of > 4096 samples with 1-3 channels; a single special at each position 0..130 among 200 calm samples; every ordered pair of the 169 instantiations back to back) and a comparison of the isolated results with a fresh process that uses the instantiations in the opposite order", maxC, maxP))
 			c.Assume("the value-level meaning of each conversion is the subject of C06-C09; here the single-sample result of the same function is the reference")
